@@ -456,7 +456,11 @@ func (s *jsSpeller) expr(n *JSNode) {
 		s.operand(n.Kids[0], pCall, false)
 		s.tNoLT(n.Op)
 	case "member", "optmember":
-		s.object(n.Kids[0])
+		if n.K == "optmember" && n.Kids[0].K == "num" && s.r.Intn(2) == 0 {
+			s.t(n.Kids[0].S) // 1?.k: "?." in front of a name is an optional chain also behind a number
+		} else {
+			s.object(n.Kids[0])
+		}
 		if n.K == "optmember" {
 			s.t("?.")
 		} else {
@@ -864,6 +868,9 @@ func asiSafeStart(ts []jsTok) bool {
 	f := firstTok(ts)
 	if f == "" {
 		return false
+	}
+	if f == "++" || f == "--" {
+		return true // a postfix operator may not be separated from its operand by a line break: the statement before ends there
 	}
 	c := f[0]
 	if !(c >= 'a' && c <= 'z' || c >= 'A' && c <= 'Z' || c == '_' || c == '$' || c >= '0' && c <= '9' || c == '"' || c == '\'') {
